@@ -2,7 +2,7 @@
 # usage: verify_seed.sh <name> <patch.diff> <demo file> <package dir relative to repo> <go test -run regexp>
 # Confirms in a scratch worktree of /repo HEAD: patch applies, builds, full suite passes, demo fails with / passes without.
 set -u
-name=$1; patch=$2; demo=$3; pkg=$4; run=$5
+name=$1; patch=$2; demo=$3; pkg=$4; run=$5; extra=${6:-}
 export GOFLAGS=-mod=mod GOPROXY=off GOSUMDB=off GOTOOLCHAIN=local
 wt=/tmp/vs-$name
 git -C /repo worktree remove --force $wt 2>/dev/null
@@ -15,11 +15,11 @@ if go build ./... >/dev/null 2>&1; then res="$res build=ok"; else res="$res buil
 fails=$(go test -vet=off -count=1 -timeout 25m ./... 2>&1 | grep -c "^FAIL\|^--- FAIL")
 res="$res suite_fail_lines=$fails"
 cp "$demo" $pkg/zz_demo_test.go
-if go test -vet=off -count=1 -run "$run" ./$pkg/ >/tmp/vs-$name.with.log 2>&1; then res="$res demo_with_change=PASS(unexpected)"; else res="$res demo_with_change=fail(expected)"; fi
+if go test -vet=off -count=1 $extra -run "$run" ./$pkg/ >/tmp/vs-$name.with.log 2>&1; then res="$res demo_with_change=PASS(unexpected)"; else res="$res demo_with_change=fail(expected)"; fi
 rm $pkg/zz_demo_test.go
 git checkout -q -- .
 cp "$demo" $pkg/zz_demo_test.go
-if go test -vet=off -count=1 -run "$run" ./$pkg/ >/tmp/vs-$name.without.log 2>&1; then res="$res demo_without_change=pass(expected)"; else res="$res demo_without_change=FAIL(unexpected)"; fi
+if go test -vet=off -count=1 $extra -run "$run" ./$pkg/ >/tmp/vs-$name.without.log 2>&1; then res="$res demo_without_change=pass(expected)"; else res="$res demo_without_change=FAIL(unexpected)"; fi
 rm $pkg/zz_demo_test.go
 cd /
 git -C /repo worktree remove --force $wt
